@@ -272,6 +272,12 @@ func negotiateFeatures(ctx context.Context, s *Session, first, ws bool, features
 		mask, rw, err = data.feature.Negotiate(ctx, s, s.features[data.feature.Name.Space])
 		s.in.d = oldDecoder
 		s.negotiated[data.feature.Name.Space] = struct{}{}
+		if err == nil {
+			// Canceling the context only interrupts reads and writes that are
+			// blocked at that moment, make sure that a cancelation that happened
+			// at any other time is not lost.
+			err = ctx.Err()
+		}
 		if err != nil {
 			// Do not continue on to other features (which would overwrite the
 			// error) if negotiating a feature failed, even an optional one.
